@@ -20,7 +20,17 @@ TOOL = 2
 
 def make_input(rng, k):
     r = rng.random()
-    if r < 0.55:
+    if r < 0.2:
+        # many date/time strings with the datetime types registered (parsing them is where dateutil, warnings and other
+        # process-global machinery are exercised); some carry a zone abbreviation dateutil does not know
+        zoned = rng.random() < 0.5
+        times = ["10:00", "23:59:59", "07:05", "12:00:00.5"] + (["10:00 EST", "12:30 PST", "08:15 CEST"] if zoned else [])
+        dates = ["2020-05-06", "1999-12-31", "2018-01-02"]
+        samples = [{"at": rng.choice(times), "on": rng.choice(dates), "slots": [rng.choice(times) for _ in range(rng.randint(2, 6))],
+                    "days": [rng.choice(dates) for _ in range(rng.randint(2, 6))], f"n{k}": j} for j in range(rng.randint(3, 8))]
+        return {"samples": samples, "merge": [["exact"]], "convert_unicode": True, "registry": list(gen.STR_TYPES),
+                "max_literals": rng.choice([0, 10]), "name": f"Root{k}"}, True
+    if r < 0.6:
         a, b, c = rng.sample(["alpha", "beta", "gamma", "delta", "omega", "sigma", "kappa", "theta"], 3)
         child = {"x": 1, "y": rng.choice([2, "s", 2.5]), f"t{k}": k}
         samples = [{a: {"first": dict(child), b: {"inner": dict(child), "z": k}}, c: {"k": [1], f"u{k}": "s"}}]
